@@ -55,6 +55,30 @@ LAYOUTS = [
 ]
 
 
+# implicit string concatenation in every mix of plain / f / raw / bytes pieces, in contexts where the literal value shows
+LAYOUTS += [
+    "from typing import Final, Literal\nA: Final = ('a' f'b' 'c' \"d\")\nreveal_type(A)\nB: Literal['abcd'] = A\nC: Final = 'x' 'y' f'z' f'{1}' 'w'\nreveal_type(C)\n",
+    "from typing import TypedDict\nclass TD(TypedDict):\n    key_one: int\nd: TD = {'key_' f'on' 'e': 1}\nd['ke' 'y_' f'one']\nd['key' f'_' 'tw' 'o']\n",
+    "x = ('%s ' f'and ' '%d' ' %s') % ('a', 'b')\ny = ('{} ' f'{{}} ' '{}' '{}').format(1)\nreveal_type('p' 'q' 'r' 's')\nreveal_type(b'p' b'q' b'r')\nreveal_type(r'\\a' 'b' f'c' rf'\\d')\n",
+    "from typing import Final\nNAME: Final = 'n'\nM: Final = ('usage: ' f'prog ' '[options] ' 'FILE')\nreveal_type(M)\nN = f'{NAME}' 'a' 'b' f'c' 'd'\nreveal_type(N)\n",
+]
+# a statically dead branch with an import (of a missing module) in every block position
+_POSITIONS = [
+    ("", "", ""), ("def f() -> None:\n", "    ", ""), ("class K:\n", "    ", ""), ("try:\n", "    ", "finally:\n    pass\n"), ("try:\n    pass\nexcept Exception:\n", "    ", ""),
+    ("try:\n    pass\nexcept Exception:\n    pass\nelse:\n", "    ", ""), ("try:\n    pass\nfinally:\n", "    ", ""),
+    ("with open('f') as fh:\n", "    ", ""), ("while int():\n", "    ", ""), ("for _i in []:\n", "    ", ""), ("for _i in []:\n    pass\nelse:\n", "    ", ""),
+    ("if int():\n    pass\nelif int():\n", "    ", ""), ("if int():\n    pass\nelse:\n", "    ", ""),
+    ("match int():\n    case 1:\n", "        ", ""), ("async def af() -> None:\n    async with af() as q:\n", "        ", ""),
+    ("def g() -> None:\n    def inner() -> None:\n", "        ", ""), ("class K2:\n    def m(self) -> None:\n        try:\n            pass\n        finally:\n", "            ", ""),
+]
+_CONDS = ["sys.version_info < (3,)", "sys.platform == 'nonexistent'", "TYPE_CHECKING and not TYPE_CHECKING", "not TYPE_CHECKING",
+          "sys.version_info >= (3, 99)"]
+for _pi, (_pre, _ind, _suf) in enumerate(_POSITIONS):
+    _body = "".join(f"{_ind}if {_c}:\n{_ind}    import missing_mod_{_pi}_{_ci}\n{_ind}    bad_{_ci}: int = ''\n{_ind}else:\n{_ind}    ok_{_ci}: int = 1\n"
+                    for _ci, _c in enumerate(_CONDS))
+    LAYOUTS.append("import sys\nfrom typing import TYPE_CHECKING\n" + _pre + _body + _suf)
+
+
 def gen(ctx: common.Ctx, n_corpus: int, n_mut: int) -> Iterator[dict[str, Any]]:
     cases = corpus.load(["check-*.test", "parse*.test", "semanal-*.test", "pythoneval*.test"])
     import random
